@@ -132,6 +132,7 @@ func init() {
 			{Plugin: "sites", Func: "mobius.(*YAMLAccountManager).Get", Kinds: amKinds},
 			{Plugin: "sites", Func: "hotline.(*ClientConn).Authenticate", Kinds: siteKinds},
 			{Plugin: "handler-contract", Func: "mobius.HandleDeleteUser", Kinds: []string{"site"}},
+			{Plugin: "handler-contract", Func: "mobius.HandleListUsers", Kinds: []string{"site", "inv-step", "inv-init"}},
 			{Plugin: "handler-contract", Func: "mobius.HandleUpdateUser", Kinds: []string{"site"}},
 			{Plugin: "passwords", Func: "mobius.HandleSetUser"},
 			{Plugin: "handler-contract", Func: "mobius.HandleSetUser", Kinds: []string{"site"}},
@@ -257,14 +258,17 @@ func init() {
 			{Plugin: "handler-contract", Func: "mobius.HandleUploadFile", Kinds: []string{"site"}},
 			{Plugin: "sites", Func: "hotline.(*OSFileStore).OpenFile", Kinds: []string{"site"}},
 			{Plugin: "sites", Func: "hotline.(*OSFileStore).Rename", Kinds: []string{"site"}},
+			{Func: "hotline.(*FileResumeData).BinaryMarshal"}, {Func: "hotline.NewFileResumeData"}, {Func: "hotline.NewForkInfoList"},
 		},
 		Decided: []string{
 			"UploadHandler never removes a file (the partial file of an interrupted upload stays for the resume)",
 			"HandleUploadFile: a transfer is registered only when the final name does not exist; for a resume request the offset reported (resume data field 203) is the size of <final name>.incomplete, taken from a successful Stat of exactly that path",
 			"UploadHandler: the partial file is opened with O_APPEND and without O_TRUNC; it is opened only when the final name does not exist; the rename to the final name is reached only on paths where receiveFile returned nil and the final name did not exist",
 			"receiveFile: returns nil only if exactly the declared data-fork size was written to the target (io.CopyN contract)",
+			"the resume data sent back (field 203): NewForkInfoList / NewFileResumeData build \"RFLT\", version 1, one entry per list element with fork type \"DATA\" and the given offset; FileResumeData.BinaryMarshal emits magic, version, count at bytes 0..6 and 40..42 and entry j's fork type and offset at 42+16j (any number of entries)",
+			"flattenedFileObject.ReadFrom: the information fork read from the connection is exactly the DataSize bytes its fork header declares, read once and parsed from that buffer; HandleUploadFile itself removes, renames, truncates or creates nothing",
 		},
-		Undecided: []string{"content equality upload = later download is the composition with C08 (not a single pre/post pair)", "the wire form of the resume data (FileResumeData.BinaryMarshal is not under a functional contract)"},
+		Undecided: []string{"content equality upload = later download is the composition with C08 (not a single pre/post pair)", "the reserved bytes of the resume data's wire form (the magic, version, count, fork type and offset are under FileResumeData.BinaryMarshal's contract)"},
 	}
 	plans["C08"] = &Plan{
 		Items: append([]Item{
@@ -281,7 +285,7 @@ func init() {
 			"NewFileWrapper / fileWrapper.flattenedFileObject, from their bodies: the wrapper and its header object are fresh, the header cursor is 0, the fixed parts are \"FILP\", version 1, 16 reserved zero bytes and \"DATA\", and the information fork -- parsed from the stored side file by one FlatFileInformationFork.Write, or synthesised from the file's own name with an empty comment -- satisfies the invariant the header encoder needs (name and comment fit their 16-bit prefixes, comment size field = comment length)",
 			"HandleDownloadFile: the only error reply is the privilege denial; field 108 is TransferSize(0) of the wrapper (bare data size for a preview), field 207 the wrapper's data size",
 		},
-		Undecided:   []string{"content of the data fork stream = bytes on disk (os.File semantics, assumed)", "resume offset taken from the wire form of the resume data (FileResumeData.UnmarshalBinary not under contract)", "files of 4 GiB and more (32-bit size fields wrap)"},
+		Undecided:   []string{"content of the data fork stream = bytes on disk (os.File semantics, assumed)", "files of 4 GiB and more (32-bit size fields wrap)"},
 		Assumptions: []string{"the bytes ReadFile returns for a stored .info_<name> side file are a well-formed info fork in a buffer of their own (stated as an `after call ... assume` clause in flattenedFileObject's contract; the server writes that file through the same codec)",
 			"the last element of an addressed path is at most 65535 bytes long (`after call path/filepath.Base assume` in NewFileWrapper's contract)"},
 	}
